@@ -139,29 +139,29 @@ example : deleteRangeReqs (fun _ => [[0x62], [0x6d]]) (fun _ i => layoutAt [[0x6
     some [⟨[0x61], [0x62]⟩, ⟨[0x62], [0x65]⟩, ⟨[0x65], [0x6d]⟩, ⟨[0x6d], [0x7a]⟩] := by decide
 
 /-- ResolveLocksForRange: when it returns, every lock of the initial population with start ts ≤ maxV and key in
-    `[s, e)` was removed by the handling of some scanned batch (by the batch's ResolveLock request, or — a primary
-    lock — by the forced status check of a batch containing a lock of the same transaction), for any number of
-    locks relative to the scan limit (≥ 1), any layouts, any pattern of re-scans. -/
-theorem resolve_loop_visits_all (layouts : Nat → Layout) (retry : Nat → Bytes → List Lock → Bool) (maxV : Nat) (s e : Bytes)
+    `[s, e)` was removed by the handling of some scanned batch (it was in the batch; or it belongs to a transaction of
+    the batch and lies in the region the ResolveLock request went to; or it is the primary lock rolled back by the
+    forced status check), for any number of locks relative to the scan limit (≥ 1), any layouts, any re-scans. -/
+theorem resolve_loop_visits_all (layouts rl : Nat → Layout) (retry : Nat → Bytes → List Lock → Bool) (maxV : Nat) (s e : Bytes)
     (limit fuel : Nat) (pop : List Lock) (out : ResolveOut)
     (_hlim : 1 ≤ limit) (hsorted : Sorted pop) (hkeys : ∀ l ∈ pop, l.key ≠ [])
-    (hrun : resolveLocksForRange layouts retry maxV s e limit fuel pop = some out) :
+    (hrun : resolveLocksForRange layouts rl retry maxV s e limit fuel pop = some out) :
     ∀ l ∈ pop, l.ts ≤ maxV → InRange s e l.key → ∃ b ∈ out.batches, l ∈ b := by
   intro l hl hts hr
-  exact (resolveLoop_final layouts retry maxV s e limit pop hkeys fuel 0 s _ out (inv_init pop hsorted maxV s e) hrun).all
+  exact (resolveLoop_final layouts rl retry maxV s e limit pop hkeys fuel 0 s _ out (inv_init pop hsorted maxV s e) hrun).all
     l ⟨hl, hts, hr⟩
 
-/-- … and afterwards the store holds no lock with start ts ≤ maxV in `[s, e)`; every lock above maxV is still
-    there, and so is every lock outside the range that is not a primary (primaries ≤ maxV anywhere may be rolled
-    back by the status check). -/
-theorem resolve_loop_clears_range (layouts : Nat → Layout) (retry : Nat → Bytes → List Lock → Bool) (maxV : Nat) (s e : Bytes)
+/-- … and afterwards the store holds no lock with start ts ≤ maxV in `[s, e)`, and every lock above maxV is still
+    there (locks ≤ maxV outside the range may go too: ResolveLock works per transaction and region, the status
+    check rolls back primaries anywhere). -/
+theorem resolve_loop_clears_range (layouts rl : Nat → Layout) (retry : Nat → Bytes → List Lock → Bool) (maxV : Nat) (s e : Bytes)
     (limit fuel : Nat) (pop : List Lock) (out : ResolveOut)
     (_hlim : 1 ≤ limit) (hsorted : Sorted pop) (hkeys : ∀ l ∈ pop, l.key ≠ [])
-    (hrun : resolveLocksForRange layouts retry maxV s e limit fuel pop = some out) :
+    (hrun : resolveLocksForRange layouts rl retry maxV s e limit fuel pop = some out) :
     (∀ l ∈ out.pop, ¬ (l.ts ≤ maxV ∧ InRange s e l.key)) ∧
-    (∀ l ∈ pop, ¬ (l.ts ≤ maxV ∧ (InRange s e l.key ∨ l.primary = true)) → l ∈ out.pop) ∧
+    (∀ l ∈ pop, maxV < l.ts → l ∈ out.pop) ∧
     (∀ l ∈ out.pop, l ∈ pop) := by
-  have hf := resolveLoop_final layouts retry maxV s e limit pop hkeys fuel 0 s _ out (inv_init pop hsorted maxV s e) hrun
+  have hf := resolveLoop_final layouts rl retry maxV s e limit pop hkeys fuel 0 s _ out (inv_init pop hsorted maxV s e) hrun
   refine ⟨?_, ?_, hf.sub⟩
   · intro l hl ⟨h1, h2⟩
     obtain ⟨b, hb, hlb⟩ := hf.all l ⟨hf.sub l hl, h1, h2⟩
@@ -169,9 +169,9 @@ theorem resolve_loop_clears_range (layouts : Nat → Layout) (retry : Nat → By
   · intro l hl hn
     apply Classical.byContradiction
     intro hnot
-    exact hn (hf.only l hl hnot)
+    exact absurd (hf.only l hl hnot) (Nat.not_le.mpr hn)
 
-example : (resolveLocksForRange (fun _ => [[0x6d]]) (fun i _ _ => i == 1) 10 [] [] 2 20
+example : (resolveLocksForRange (fun _ => [[0x6d]]) (fun _ => [[0x6d]]) (fun i _ _ => i == 1) 10 [] [] 2 20
     [⟨[0x61], 5, false⟩, ⟨[0x62], 5, false⟩, ⟨[0x63], 11, false⟩, ⟨[0x64], 7, false⟩, ⟨[0x7a], 5, true⟩]).map
       (fun o => (o.batches, o.pop)) =
     some ([[⟨[0x61], 5, false⟩, ⟨[0x62], 5, false⟩, ⟨[0x7a], 5, true⟩], [], [⟨[0x64], 7, false⟩], []],
